@@ -1,5 +1,6 @@
 import NessaiVerif.Model.Results
 import NessaiVerif.Gen.Results
+import NessaiVerif.Gen.InsState
 import NessaiVerif.Proofs.Results
 import NessaiVerif.Proofs.ResultsQuad
 import NessaiVerif.Proofs.ResultsIns
@@ -440,4 +441,44 @@ theorem result_keys_fails_without :
   constructor <;> decide +kernel
 
 end tables
+
+/-! ## The evidence state of the importance sampler: the source, regenerated on every run, IS the model
+
+`Gen/InsState.lean` is produced by `harness/pylogvec2lean.py` from the current text of `_INSIntegralState.update_evidence`,
+`.logZ`, `.log_posterior_weights` and `log_evidence_from_ins_samples` (a record array is its `logL` / `logW` columns, a
+log-weight is the product `L · W`).  They are the model's `insWeights`, `insZ`, `insPostW` — so the INS clauses of this
+property (and the evidence-based stopping criteria of C15) are stated about the source as it is now. -/
+section insSource
+variable {K : Type} [Field K]
+
+theorem zipWith_mul_unzip (l : List (K × K)) :
+    List.zipWith (· * ·) (l.map (·.1)) (l.map (·.2)) = l.map (fun s => s.1 * s.2) := by
+  induction l with
+  | nil => rfl
+  | cons x xs ih => simp [ih]
+
+/-- `update_evidence(nested_samples, live_points)`: the weights are `insWeights`, `_logZ` their sum, `_n` their number -/
+theorem ins_update_evidence_source_eq_model (nested : List (K × K)) (live : Option (List (K × K))) :
+    Gen.InsState.update_evidence (nested.map (·.1)) (nested.map (·.2)) (live.map fun l => (l.map (·.1), l.map (·.2))) =
+      (insWeights nested (live.getD []), sumL (insWeights nested (live.getD [])), (insWeights nested (live.getD [])).length) := by
+  cases live with
+  | none => simp [Gen.InsState.update_evidence, insWeights, zipWith_mul_unzip]
+  | some l => simp [Gen.InsState.update_evidence, insWeights, zipWith_mul_unzip]
+
+/-- the `logZ` property on the state `update_evidence` leaves is the model's `insZ` (mean of the weights) -/
+theorem ins_logZ_source_eq_model (w : List K) : Gen.InsState.logZ (sumL w) w.length = insZ w := rfl
+
+/-- `log_posterior_weights` is the model's `insPostW` -/
+theorem ins_post_weights_source_eq_model (w : List K) :
+    Gen.InsState.log_posterior_weights w (sumL w) w.length = insPostW w := rfl
+
+/-- `log_evidence_from_ins_samples(samples)` is `insZ` of the samples' weights -/
+theorem ins_log_evidence_from_samples_source_eq_model (s : List (K × K)) :
+    Gen.InsState.log_evidence_from_ins_samples (s.map (·.1)) (s.map (·.2)) = insZ (insWeights s []) := by
+  simp [Gen.InsState.log_evidence_from_ins_samples, insZ, insWeights, zipWith_mul_unzip]
+
+example : Gen.InsState.update_evidence [(2 : ℚ), 4] [1 / 2, 1 / 4] (some ([3], [1 / 3])) = ([1, 1, 1], 3, 3) := by
+  norm_num [Gen.InsState.update_evidence, sumL]
+
+end insSource
 end NessaiVerif.C05
